@@ -124,7 +124,12 @@ int main(int argc, char **argv) {
       uint64_t v = k; for (int i = 0; i < len; i++) { m[i] = alpha[v & 3]; v >>= 2; }
       /* full reads for every string; the other chunkings for strings of length <= maxlen-2 */
       one(m, len, 0);
-      if (len + 2 <= maxlen) for (int c = 1; c < 4; c++) one(m, len, chunks[c]);
+      if (len + 2 <= maxlen) { for (int c = 1; c < 4; c++) one(m, len, chunks[c]); onep(m, len, "2/1"); onep(m, len, "0/2,1"); }
+      /* a failing read() after j one-byte reads (temp_read), a failing write() at the final flush / after one byte (dropped) */
+      if (len + 4 <= maxlen) {
+        for (int j = 0; j <= len; j++) { char t[64]; int o = 0; for (int q = 0; q < j; q++) o += snprintf(t + o, sizeof t - o, "1,"); snprintf(t + o, sizeof t - o, "e"); onep(m, len, t); }
+        onep(m, len, "0/e"); onep(m, len, "0/1,e");
+      }
     }
   }
   /* random long messages; 7 of 8 are made to end with a line end so that most of them are transmitted (status O) */
@@ -146,7 +151,7 @@ int main(int argc, char **argv) {
   /* chunking sweep (theorems C06_chunking*): messages longer than inbuf/smtptobuf (1024), each under a fixed set of
    * read plans x write plans (1, 2, 1023, 1024, 1025, full, mixed), random short reads and short writes, a failing
    * read (temp_read) and a failing write (dropped) */
-  for (int r = 0; r < nrandom / 16 + 2; r++) {
+  for (int r = 0; r < nrandom / 32 + 2; r++) {
     if ((r % nshards) != shard) continue;
     size_t n = 1030 + h_below(r % 5 == 0 ? 4400 : 2400);
     unsigned char *b = malloc(n + 2);
